@@ -28,12 +28,22 @@ func (P *extPoint) initXY(x, y *compatible.Int, c kyber.Group) {
 }
 
 func (P *extPoint) getXY() (x, y *mod.Int) {
-	P.normalize()
-	return &P.X, &P.Y
+	return P.affine()
+}
+
+// affine returns the affine coordinates of the point without modifying it,
+// so that encoding, printing or extracting data from a point that is shared
+// between goroutines is not a data race.
+func (P *extPoint) affine() (x, y *mod.Int) {
+	var zinv mod.Int
+	x, y = new(mod.Int), new(mod.Int)
+	zinv.Inv(&P.Z)
+	x.Mul(&P.X, &zinv)
+	y.Mul(&P.Y, &zinv)
+	return x, y
 }
 
 func (P *extPoint) String() string {
-	P.normalize()
 	buf, _ := P.MarshalBinary()
 	return hex.EncodeToString(buf)
 }
@@ -43,8 +53,8 @@ func (P *extPoint) MarshalSize() int {
 }
 
 func (P *extPoint) MarshalBinary() ([]byte, error) {
-	P.normalize()
-	return P.c.encodePoint(&P.X, &P.Y), nil
+	x, y := P.affine()
+	return P.c.encodePoint(x, y), nil
 }
 
 func (P *extPoint) UnmarshalBinary(b []byte) error {
@@ -112,15 +122,6 @@ func (P *extPoint) EmbedLen() int {
 	return P.c.embedLen()
 }
 
-// Normalize the point's representation to Z=1.
-func (P *extPoint) normalize() {
-	P.Z.Inv(&P.Z)
-	P.X.Mul(&P.X, &P.Z)
-	P.Y.Mul(&P.Y, &P.Z)
-	P.Z.V.SetInt64(1)
-	P.T.Mul(&P.X, &P.Y)
-}
-
 // Check the validity of the T coordinate
 //
 //nolint:unused // may be useful
@@ -143,8 +144,8 @@ func (P *extPoint) Pick(rand cipher.Stream) kyber.Point {
 
 // Extract embedded data from a point group element
 func (P *extPoint) Data() ([]byte, error) {
-	P.normalize()
-	return P.c.data(&P.X, &P.Y)
+	x, y := P.affine()
+	return P.c.data(x, y)
 }
 
 // Add two points using optimized extended coordinate addition formulas.
